@@ -4,6 +4,7 @@ package originium
 
 import (
 	"container/list"
+	"fmt"
 	"time"
 
 	"github.com/B1NARY-GR0UP/originium/pkg/logger"
@@ -128,6 +129,27 @@ func (v *VerifLevels) Tables() [][]int {
 			idx = append(idx, e.Value.(tableHandle).levelIdx)
 		}
 		res = append(res, idx)
+	}
+	return res
+}
+
+// FilterDenied lists, as "level-idx:userkey", every entry stored in a table the level manager
+// holds whose user key the table's bloom filter answers "absent" for (C16: must be empty).
+func (v *VerifLevels) FilterDenied() []string {
+	v.lm.mu.Lock()
+	defer v.lm.mu.Unlock()
+	var res []string
+	for level, l := range v.lm.levels {
+		for e := l.Front(); e != nil; e = e.Next() {
+			th := e.Value.(tableHandle)
+			for _, ie := range th.dataBlockIndex.Entries {
+				for _, entry := range v.lm.fetch(level, th.levelIdx, ie.DataHandle).Entries {
+					if uk := types.ParseKey(entry.Key); !th.filter.Contains(uk) {
+						res = append(res, fmt.Sprintf("%d-%d:%s", level, th.levelIdx, uk))
+					}
+				}
+			}
+		}
 	}
 	return res
 }
